@@ -7,6 +7,72 @@ use crate::sim::StepOutcome;
 
 pub struct C12;
 
+/// Did some script call `redo-ifchange T` while T's own script was running in
+/// one of the caller's ancestors?
+fn dynamic_cycle_request(g: &GroupRec) -> bool {
+    use crate::sim::{Class, EvKind};
+    let runs = do_runs(g);
+    for e in &g.events {
+        if !matches!(e.kind, EvKind::Op(Class::Proc)) {
+            continue;
+        }
+        let args: Vec<&str> = match e.text.strip_prefix("exec redo-ifchange ") {
+            Some(a) => a.split(' ').collect(),
+            None => continue,
+        };
+        for r in &runs {
+            let ancestor = e.lid.starts_with(&format!("{}.", r.lid));
+            let running = r.begin <= e.step && r.end.map_or(true, |x| x >= e.step);
+            if ancestor && running && args.iter().any(|a| *a == r.target) {
+                return true;
+            }
+        }
+    }
+    false
+}
+
+/// Does a depth-first walk over the declared redo-ifchange dependencies from
+/// `targets` meet a target that is on the current path?
+fn leads_into_cycle(world: &crate::model::World, targets: &[String]) -> bool {
+    fn deps(world: &crate::model::World, t: &str) -> Vec<String> {
+        let mut out = Vec::new();
+        if world.is_user_file(t) {
+            return out;
+        }
+        if let Some((cand, rule)) = world.rule_for(t) {
+            for st in &rule.stmts {
+                if let Stmt::IfChange(v) = st {
+                    for p in v {
+                        if let Some(a) = join_norm(&cand.do_dir, p) {
+                            out.push(a);
+                        }
+                    }
+                }
+            }
+        }
+        out
+    }
+    fn walk(world: &crate::model::World, t: &str, path: &mut Vec<String>, done: &mut std::collections::BTreeSet<String>) -> bool {
+        if path.iter().any(|p| p == t) {
+            return true;
+        }
+        if done.contains(t) {
+            return false;
+        }
+        path.push(t.to_string());
+        for d in deps(world, t) {
+            if walk(world, &d, path, done) {
+                return true;
+            }
+        }
+        path.pop();
+        done.insert(t.to_string());
+        false
+    }
+    let mut done = Default::default();
+    targets.iter().any(|t| walk(world, t, &mut Vec::new(), &mut done))
+}
+
 /// (waiter, lock byte, holder) for every process parked in a blocking lock
 /// wait on .redo/locks at the end of the group.
 fn lock_waits(g: &GroupRec) -> Vec<(String, String, Option<String>)> {
@@ -211,8 +277,14 @@ impl Property for C12 {
             let mut stmts = vec![Stmt::IfChange(deps)];
             if csum_pm > 0 && rng.chance(csum_pm, 1000) {
                 // a checksummed node: its dependents are re-checked out of
-                // band (redo-unlocked) when the cycle appears later
-                stmts.push(Stmt::Stamp { only: Vec::new() });
+                // band (redo-unlocked) when the cycle appears later; the stamp
+                // comes after the redo-ifchange or -- constant checksum, marks
+                // the node as checked while its script still runs -- before it
+                if rng.chance(1, 2) {
+                    stmts.push(Stmt::Stamp { only: Vec::new() });
+                } else {
+                    stmts.insert(0, Stmt::Stamp { only: Vec::new() });
+                }
             }
             rules.push((
                 format!("{}.do", cyc[i]),
@@ -316,6 +388,13 @@ impl Property for C12 {
             if g.step_idx != jg {
                 continue;
             }
+            // the premise: what was requested leads, by the rules as they are
+            // now, into a cycle (a shrunk scenario may have lost it)
+            let world = &rec.world_after[g.step_idx];
+            let req: Vec<String> = g.cmds[0].targets();
+            if !leads_into_cycle(world, &req) {
+                continue;
+            }
             match g.outcome {
                 StepOutcome::Deadlock | StepOutcome::StepLimit => {
                     let how = if g.outcome == StepOutcome::Deadlock {
@@ -388,6 +467,13 @@ impl Property for C12 {
                 continue;
             }
             let r = &g.results[0];
+            if r.status == Some(0) && !dynamic_cycle_request(g) {
+                // No script asked for a target that one of its ancestors was
+                // building: the chain of redo-ifchange calls never came back (a
+                // node in between was clean, e.g. behind an unchanged checksum).
+                // The statement is about chains of calls; nothing to judge.
+                continue;
+            }
             if r.status == Some(0) {
                 v.push(Violation {
                     kind: "cycle-success".into(),
